@@ -9,6 +9,7 @@ R3 bundle literals: a constant member goes to the constant part or the computed 
 from __future__ import annotations
 
 import ast
+import re
 
 from ..cfg import CFG
 from ..core import AnalysisError, Repo, Report, call_name, calls_in, kwarg, module_const, norm, parents_map, walk_local
@@ -154,7 +155,8 @@ def run(repo: Repo, rep: Report, tier: str) -> None:
     alts_f = canon(pd).alts(kwarg(c[0], "needs_wire_separation"), c[0]) if c else []
     META_F = "op.debug_metadata.get('needs_wire_separation'"
     # the placement may raise the flag on its own (a literal True on some path); it never lowers what the node asked for
-    ok = bool(alts_f) and any(a.startswith(META_F) for a in alts_f) and all(a.startswith(META_F) or a == "True" for a in alts_f)
+    META_RE = re.compile(r"op\.debug_metadata\.get\('needs_wire_separation'(, False)?\)")
+    ok = bool(alts_f) and any(META_RE.fullmatch(a) for a in alts_f) and all(META_RE.fullmatch(a) or a == "True" for a in alts_f)
     rep.check(ok, "C02-R2", "_place_single_condition_decider forwards the flag from the node's metadata", "; ".join(a[:50] for a in alts_f), pd.loc())
     # any(bundle) / all(bundle) compared with a signal: the wildcard counts every signal on the wire, the scalar included, unless the two are separated
     raises = []
